@@ -573,13 +573,14 @@ theorem enabledC_of_enabled (s : Sess) (e : Ev) (h : enabled s e = true) : (core
 /-- an invariant of the skeleton that every skeleton action and every frame outcome preserves holds along every run -/
 theorem core_step_inv (U : Bool → Bytes → UpdClass) (P : Core → Prop)
     (hF : ∀ c, P c → ∀ o ∈ c.frameOutcomes, P o)
-    (hE' : ∀ c e, P c → c.enabledC e → ∀ o ∈ c.stepOutcome e, P o)
-    (w : World) (e : Ev) (hen : enabled w.sess e = true) (h : P (core w.sess)) : P (core (step U w e).sess) := by
+    (w : World) (e : Ev) (hen : enabled w.sess e = true)
+    (hE' : P (core w.sess) → (core w.sess).enabledC e → ∀ o ∈ (core w.sess).stepOutcome e, P o)
+    (h : P (core w.sess)) : P (core (step U w e).sess) := by
   have h0 : P (core (w.sess.withOuts [])) := h
   have hE : ∀ c e', e' = e → c = core w.sess → P c → ∀ o ∈ c.stepOutcome e', P o := by
     intro c e' he hc hp
     subst he; subst hc
-    exact hE' _ _ hp (enabledC_of_enabled w.sess _ hen)
+    exact hE' hp (enabledC_of_enabled w.sess _ hen)
   cases e with
   | boot => simp only [step]; rw [Sess.core_autoStart]; exact hE _ .boot rfl rfl h0 _ (by simp [Core.stepOutcome])
   | manualStart => simp only [step]; rw [Sess.core_manualStart]; exact hE _ .manualStart rfl rfl h0 _ (by simp [Core.stepOutcome])
